@@ -232,6 +232,8 @@ class Interp(object):
       qn = fn.__module__ + ":" + fn.__qualname__
     elif isinstance(fn, type):
       qn = fn.__module__ + ":" + fn.__qualname__
+    elif isinstance(fn, types.BuiltinFunctionType) and isinstance(getattr(fn, "__module__", None), str):
+      qn = fn.__module__ + ":" + fn.__name__       # e.g. "select:select"
     if qn is None:
       return None
     return self.call_specs.get(qn)
@@ -1018,7 +1020,47 @@ class Interp(object):
     return self.ex(node.body, 0, st, bctx, body_done)
 
   def ex_With(self, node, st, ctx, k):
-    raise Unsupported("with statement at %s" % self.where(ctx, node))
+    """with A [as x], B ...: body  ==  nested single-item with statements.  __enter__ / __exit__ are looked up on the
+    manager's class; __exit__ runs on every way out of the body (normal, return, break, continue, exception) and a
+    true result swallows the exception."""
+    items = list(node.items)
+    def run_items(i, st1, ctx1, k1):
+      if i >= len(items):
+        return self.ex(node.body, 0, st1, ctx1, k1)
+      item = items[i]
+      def got_mgr(st2, mgr):
+        def call_exit(st3, exc, after):
+          """after(st, suppressed)"""
+          args = [None, None, None] if exc is None else [exc.cls, exc, None]
+          return self.getattr_value(mgr, "__exit__", st3, ctx1,
+                                    lambda st4, f: self.call_value(f, args, {}, st4, ctx1,
+                                      lambda st5, r: self.truth(r, st5, ctx1, lambda st6, t: after(st6, t), item.context_expr),
+                                      item.context_expr), item.context_expr)
+        def entered(st3, val):
+          def proceed(st4):
+            outer = ctx1
+            def on_exc(s, e):
+              def after(s2, suppressed):
+                if suppressed is True:
+                  return k1(s2)
+                if suppressed is False:
+                  return outer.exc_k(s2, e)
+                return self.branch(suppressed, s2, k1, lambda s3: outer.exc_k(s3, e), "with-exit")
+              return call_exit(s, e, after)
+            wctx = ctx1.replace(
+              ret_k=lambda s, v: call_exit(s, None, lambda s2, _t: outer.ret_k(s2, v)),
+              exc_k=on_exc,
+              brk_k=(lambda s: call_exit(s, None, lambda s2, _t: outer.brk_k(s2))) if outer.brk_k else None,
+              cont_k=(lambda s: call_exit(s, None, lambda s2, _t: outer.cont_k(s2))) if outer.cont_k else None)
+            return run_items(i + 1, st4, wctx, lambda s: call_exit(s, None, lambda s2, _t: k1(s2)))
+          if item.optional_vars is not None:
+            return self.assign(item.optional_vars, val, st3, ctx1, proceed)
+          return proceed(st3)
+        return self.getattr_value(mgr, "__enter__", st2, ctx1,
+                                  lambda st3, f: self.call_value(f, [], {}, st3, ctx1, entered, item.context_expr),
+                                  item.context_expr)
+      return self.ev(item.context_expr, st1, ctx1, got_mgr)
+    return run_items(0, st, ctx, k)
 
   def ex_ClassDef(self, node, st, ctx, k):
     raise Unsupported("nested class definition")
